@@ -374,7 +374,8 @@ def rule_const(prog, rep):
                 rep.finding("C05.CONST", fn.name, "%s:not-propagated" % callee,
                             "%s calls %s with `%s` instead of its own Constness parameter: [?Const] is not propagated" % (caller, callee, s), c.loc())
     # the leaf: a Variable under Const is an error on every path
-    val = prog.fn(r"^apollo_parser::parser::grammar::value::value$")
+    val = prog.inline(prog.fn(r"^apollo_parser::parser::grammar::value::value$"),
+                      keep=r"Parser::<'input>::|grammar::variable::variable$|grammar::value::(list_value|object_value|enum_value)$")
     var_calls = [c for c in val.live_calls() if re.search(r"grammar::variable::variable$", c.name)]
     errs = [c.block for c in val.live_calls() if re.search(r"Parser::<'input>::(err|err_and_pop)$", c.name)]
     sw = [(b, val.switch_info(b)) for b in sorted(val.live_blocks())]
@@ -385,7 +386,8 @@ def rule_const(prog, rep):
     b, info = sw[0]
     t_const = info["edges"].get("Const", info["otherwise"])
     ok = val.dominates(b, var_calls[0].block) or must_pass(val, [0], [var_calls[0].block], [b])[0]
-    ok = ok and must_pass(val, [t_const], [var_calls[0].block] + val.return_blocks(), errs)[0]
+    from ..flow import must_pass_cp
+    ok = ok and must_pass_cp(val, [t_const], [var_calls[0].block] + val.return_blocks(), errs)[0]
     rep.obligation(ok)
     if ok:
         rep.instance("C05.CONST", "value(): under Constness::Const every path to variable() reports `unexpected variable value in a Const context`")
